@@ -159,6 +159,18 @@ def judge_circuit(case, ctx, prefix):
                 return S.DCSolution(c), S.ComplexSolution(circuit=c, w=10.0), S.TimeDomainSolution(c, 30.0)
             must_raise(ctx, prefix, 'unknown-type/component', f'a circuit with a component of unknown type {bad_type!r} at position {pos}', build_and_analyse)
             ctx.evaluated(repr(('unknown-type-component', pos, n, bad_type)), True)
+    # a ground symbol on a node that touches no element, at every position: rejected when the circuit is built or, at the latest, by
+    # every analysis
+    if not has_ground:
+        for pos in range(n + 1):
+            lst = list(comps)
+            lst.insert(pos, ccp.ground(id='gnd#9', nodes=('no such node',)))
+
+            def build_and_analyse_g(lst=lst):
+                c = Circuit(lst)
+                return S.DCSolution(c), S.ComplexSolution(circuit=c, w=10.0), S.TimeDomainSolution(c, 30.0)
+            must_raise(ctx, prefix, 'detached-reference/circuit', f'a circuit whose ground symbol (position {pos}) sits on a node that touches no element', build_and_analyse_g)
+            ctx.evaluated(repr(('detached-ground-circuit', pos, n)), True)
     ctx.sample({'circuit_fault_base': cd})
 
 
